@@ -29,7 +29,12 @@ MANIFEST = {
             "in the model and reproduced on the implementation (C05_includes_function_equality_refuted, C05_unique_function_equality_refuted, "
             "C05_all_builtins_unrestricted_refuted; finding F53), and exact with respect to the code: the excluded built-ins are "
             "the arms of BuiltInFunction::call whose source text applies Value::equals (table coq/gen/ArmObservers.v regenerated on "
-            "every run, C05_equality_exclusion_matches_source); PARTIAL still: NaN / both-quote captured data; the "
+            "every run, C05_equality_exclusion_matches_source); NaN / both-quote captured data are no longer PARTIAL: the literals `(0/0)` and the `+` chain "
+            "of string literals (computed key for record keys) evaluate to exactly the value for EVERY string, in every configuration, for every operator "
+            "implementation with 0/0 = NaN and string + string = concatenation (C05_lit_nan_evaluates, C05_lit_both_quote_evaluates, "
+            "C05_lit_roundtrip_nan_quote; the transcribed operators satisfy it: C05_binop_lit_ok_inst), and the first-order and higher-order emission "
+            "equivalences are re-proved with such data inside, nested at any depth (C05_emit_equiv_first_order_nan_quote[_generic|_all], "
+            "C05_ho_simulation_nan_quote, C05_emit_equiv_higher_order_nan_quote; proofs/EmitNq*.v) — the only exclusion left is function equality (F53); the "
             "original C05_full statement is REFUTED (function equality, finding F53); current-code defects are refuted lemmas.  EMIT correspondence: for generated "
             "functions x captured value pool the AST the real parser returns for the real emitted text, and the body of the "
             "real reloaded function, equal the model's inlined AST; behaviour original vs reloaded-in-fresh-session vs "
